@@ -161,6 +161,11 @@ int main(int argc, char *argv[])
             msg_length = Avtp_Ntscf_GetNtscfDataLength((Avtp_Ntscf_t*)cf_pdu);
         }
 
+        // The VSS header and the start of the VSS path must have been received
+        if ((uint64_t) res < proc_bytes + AVTP_VSS_FIXED_HEADER_LEN + 2) {
+            continue;
+        }
+
         // Check if the control packet payload is a ACF GPC.
         acf_pdu = &pdu[proc_bytes];
         acf_type = Avtp_AcfCommon_GetAcfMsgType((Avtp_AcfCommon_t*)acf_pdu);
@@ -172,7 +177,20 @@ int main(int argc, char *argv[])
         // Parse the VSS Packet and print contents on the STDOUT
         Vss_AddrMode_t addrMode;
         VssPath_t path;
+        char path_buf[MAX_PDU_SIZE];
+        uint64_t vss_length;
         addrMode = Avtp_Vss_GetAddrMode((Avtp_Vss_t*)acf_pdu);
+
+        // The VSS path must have been received; in interop mode
+        // Avtp_Vss_GetVssPath() copies it to the memory provided here
+        vss_length = AVTP_VSS_FIXED_HEADER_LEN +
+                     Avtp_Vss_CalcVssPathLength((Avtp_Vss_t*)acf_pdu);
+        if (proc_bytes + vss_length > (uint64_t) res) {
+            continue;
+        }
+        if (addrMode == VSS_INTEROP_MODE) {
+            path.vss_interop_path.path = path_buf;
+        }
         Avtp_Vss_GetVssPath((Avtp_Vss_t*)acf_pdu, &path);
 
         if (addrMode == VSS_INTEROP_MODE) {
@@ -186,9 +204,11 @@ int main(int argc, char *argv[])
 
         VssData_t data;
         Vss_Datatype_t dt = Avtp_Vss_GetDatatype((Avtp_Vss_t*)acf_pdu);
-        Avtp_Vss_GetVssData((Avtp_Vss_t*)acf_pdu, &data);
 
-        if (dt == VSS_FLOAT) {
+        // Only a float is printed: fetch it if it has been received
+        if (dt == VSS_FLOAT &&
+            proc_bytes + vss_length + sizeof(float) <= (uint64_t) res) {
+            Avtp_Vss_GetVssData((Avtp_Vss_t*)acf_pdu, &data);
             printf("VSS Value: %f\n", data.data_float);
         }
 
